@@ -7,7 +7,9 @@ package main
 // parses JSON bytes (validity check first, then assignment with exact / case-
 // insensitive field matching).  String contents may be symbolic: the escape class
 // of each symbolic byte and every structural test in the parser are path
-// decisions.  ASCII only; floats, []byte (base64), Marshaler / TextMarshaler
+// decisions.  Symbolic bytes are ASCII; concrete non-ASCII text follows
+// encoding/json's UTF-8 rules (U+2028/9 escaped, invalid bytes -> U+FFFD, \u escapes
+// with surrogate pairs); floats, []byte (base64), Marshaler / TextMarshaler
 // implementations and embedded structs are UNSUPPORTED.
 
 import (
@@ -15,6 +17,9 @@ import (
 	"go/types"
 	"sort"
 	"strconv"
+	"unicode"
+	"unicode/utf16"
+	"unicode/utf8"
 )
 
 // ---- encoder --------------------------------------------------------------------
@@ -46,15 +51,36 @@ func (e *jsonEnc) newline(depth int) {
 func (e *jsonEnc) str(s Value) {
 	p := e.p
 	e.lit(`"`)
-	for _, b := range strBytes(s) {
+	bs := strBytes(s)
+	for i := 0; i < len(bs); i++ {
+		b := bs[i]
 		if c, ok := b.(int64); ok {
-			e.escByte(byte(c))
+			if c < 0x80 {
+				e.escByte(byte(c))
+				continue
+			}
+			// concrete non-ASCII: valid UTF-8 is copied (U+2028 / U+2029 escaped), an invalid byte becomes \ufffd
+			buf := concreteRun(bs, i)
+			r, size := utf8.DecodeRune(buf)
+			switch {
+			case r == utf8.RuneError && size == 1:
+				e.lit(`\ufffd`)
+			case r == 0x2028:
+				e.lit(`\u2028`)
+			case r == 0x2029:
+				e.lit(`\u2029`)
+			default:
+				for k := 0; k < size; k++ {
+					e.out = append(e.out, int64(buf[k]))
+				}
+			}
+			i += size - 1
 			continue
 		}
 		// symbolic byte: its escape class is a path decision
 		switch {
 		case p.byteIn(b, 0x80, 0xFF):
-			panic(unsupported("non-ASCII byte in a JSON string (outside the ASCII-only claim)"))
+			panic(unsupported("symbolic non-ASCII byte in a JSON string (non-ASCII text is covered for concrete bytes only)"))
 		case p.byteIn(b, '"', '"'), p.byteIn(b, '\\', '\\'):
 			e.out = append(e.out, int64('\\'), b)
 		case p.byteIn(b, '<', '<'), p.byteIn(b, '>', '>'), p.byteIn(b, '&', '&'), p.byteIn(b, 0, 0x1F):
@@ -67,11 +93,22 @@ func (e *jsonEnc) str(s Value) {
 	e.lit(`"`)
 }
 
+// concreteRun returns up to four concrete bytes starting at i (a symbolic byte is ASCII and ends the run).
+func concreteRun(bs []Value, i int) []byte {
+	var buf []byte
+	for k := i; k < len(bs) && k < i+4; k++ {
+		c, ok := bs[k].(int64)
+		if !ok {
+			break
+		}
+		buf = append(buf, byte(c))
+	}
+	return buf
+}
+
 func (e *jsonEnc) escByte(c byte) {
 	const hexd = "0123456789abcdef"
 	switch {
-	case c >= 0x80:
-		panic(unsupported("non-ASCII byte in a JSON string (outside the ASCII-only claim)"))
 	case c == '\\' || c == '"':
 		e.out = append(e.out, int64('\\'), int64(c))
 	case c == '\b':
@@ -396,6 +433,36 @@ func (jp *jsonParser) value() *jnode {
 	return &jnode{kind: 'n', num: num}
 }
 
+// peekU4 reads a following \uXXXX escape without consuming it (encoding/json's getu4).
+func (jp *jsonParser) peekU4() (int64, bool) {
+	if jp.pos+6 > len(jp.d) || !jp.is(jp.pos, '\\') || !jp.is(jp.pos+1, 'u') {
+		return 0, false
+	}
+	r := int64(0)
+	for k := 2; k < 6; k++ {
+		var h int64
+		switch x := jp.d[jp.pos+k].(type) {
+		case int64:
+			h = x
+		case *Term:
+			h = jp.p.Concretize(x, "JSON hex digit")
+		}
+		var dv int64
+		switch {
+		case h >= '0' && h <= '9':
+			dv = h - '0'
+		case h >= 'a' && h <= 'f':
+			dv = h - 'a' + 10
+		case h >= 'A' && h <= 'F':
+			dv = h - 'A' + 10
+		default:
+			return 0, false
+		}
+		r = r*16 + dv
+	}
+	return r, true
+}
+
 func (jp *jsonParser) str() []Value {
 	p := jp.p
 	jp.pos++ // opening quote
@@ -462,10 +529,23 @@ func (jp *jsonParser) str() []Value {
 					r = r*16 + dv
 				}
 				jp.pos += 4
-				if r >= 0x80 {
-					panic(unsupported("JSON text layer: non-ASCII \\u escape"))
+				if utf16.IsSurrogate(rune(r)) {
+					if r2, ok := jp.peekU4(); ok {
+						if dec := utf16.DecodeRune(rune(r), rune(r2)); dec != unicode.ReplacementChar {
+							jp.pos += 6
+							r = int64(dec)
+						} else {
+							r = unicode.ReplacementChar
+						}
+					} else {
+						r = unicode.ReplacementChar
+					}
 				}
-				out = append(out, r)
+				var enc [4]byte
+				n := utf8.EncodeRune(enc[:], rune(r))
+				for k := 0; k < n; k++ {
+					out = append(out, int64(enc[k]))
+				}
 			default:
 				jp.fail("invalid character in string escape code")
 			}
@@ -473,8 +553,22 @@ func (jp *jsonParser) str() []Value {
 			if p.byteIn(b, 0, 0x1F) {
 				jp.fail("invalid character in string literal")
 			}
+			if c, ok := b.(int64); ok && c >= 0x80 {
+				// concrete non-ASCII: valid UTF-8 is copied, an invalid byte becomes U+FFFD
+				buf := concreteRun(jp.d, jp.pos)
+				r, size := utf8.DecodeRune(buf)
+				if r == utf8.RuneError && size == 1 {
+					out = append(out, int64(0xEF), int64(0xBF), int64(0xBD))
+				} else {
+					for k := 0; k < size; k++ {
+						out = append(out, int64(buf[k]))
+					}
+				}
+				jp.pos += size
+				continue
+			}
 			if p.byteIn(b, 0x80, 0xFF) {
-				panic(unsupported("non-ASCII byte in JSON text (outside the ASCII-only claim)"))
+				panic(unsupported("symbolic non-ASCII byte in JSON text (non-ASCII text is covered for concrete bytes only)"))
 			}
 			out = append(out, b)
 			jp.pos++
